@@ -203,6 +203,11 @@ func Stress(n int, budget time.Duration, f func()) {
 	quiet = false
 }
 
+// LocksetRace switches the lockset check on map accesses on (gsx: two spawned goroutines that
+// access the same map, one of them writing, must hold a common lock; natively a no-op - the
+// confirmation run is built with the Go race detector). primitive.
+func LocksetRace(on bool) {}
+
 // Reach marks a program point for vacuity checking and trace validation. primitive.
 func Reach(label string) {
 	if !quiet {
